@@ -10,15 +10,15 @@ CONSTANTS
  Flags <- FlagsDef
  Cands <- CandsDef
  FirstHops <- FirstHopsDef
- MaxJoined = 3
+ MaxJoined = 10
  MaxEarly = 3
  Tries = 2
- NextHop = 4 Unstable = 24 CacheTO = 4 Inactive = 8 RemoveDelay = 2 SweepEvery = 2 PingEvery = 3 MaxTime = 100
+ NextHop = 4 Unstable = 24 CacheTO = 4 Inactive = 8 RemoveDelay = 2 SweepEvery = 2 PingEvery = 3 MaxTime = 1000
  CreateGuard = TRUE
- MaxCircuits = 1 MaxData = 1 MaxLoss = 0 MaxDup = 0 MaxAdv = 0 MaxNow = 0
+ MaxCircuits = 1 MaxData = 0 MaxLoss = 0 MaxDup = 0 MaxAdv = 3 MaxNow = 0
  Goals = {3}
  Origins = {o}
- AdvKinds = {}
+ AdvKinds = {"mangle"}
  NodeRank <- RankDef
  AdvSrcs = {adv}
  TrackWire = FALSE
@@ -30,15 +30,7 @@ CONSTANTS
  CheckIdent = TRUE
  AutoTimers = TRUE
 INVARIANT TypeOK
-INVARIANT ExitIntegrity
-INVARIANT ReturnIntegrity
-INVARIANT LayerDepth
-INVARIANT ExitOnlyOwn
 INVARIANT NoForeignKey
 INVARIANT KeyAgreement
-INVARIANT RelayEarlyBudget
-PROPERTY EntriesStable
-PROPERTY DestroyOnlyFromNeighbour
-PROPERTY UnknownCellsInert
 PROPERTY AnswerMustMatch
-PROPERTY JoinLimit
+PROPERTY EntriesStable
